@@ -452,7 +452,7 @@ def c16_job(args):
                     triv = cx.trivia(ry, pc); core = core_positions(triv)
                     # lookahead offered to predicates never sees a skipped token
                     for e in ry.log:
-                        if e[0] != 4: continue
+                        if e[0] not in (4, 5): continue
                         for x in (e[1], e[2], e[5], e[6]):
                             if isinstance(x, tuple) and x[0] == 't' and triv[x[1]]:
                                 v = Violation('C16', 'lookahead-sees-trivia', g, ry, f'predicate #{e[7]} was offered skipped token {x[1]} as lookahead')
@@ -461,7 +461,7 @@ def c16_job(args):
                     remap = {i: k for k, i in enumerate(core)}
                     ty = strip_tree(ry.walk, set(core), remap)
                     dy = [(remap[d[2]] if d[2] in remap else (len(core) if d[2] >= n else ('trivia', d[2])), d[4]) for d in ry.diags]
-                    ly = [(e[0], e[1]) + ((remap_tok(e[1], remap), remap_tok(e[2], remap), remap_tok(e[5], remap), remap_tok(e[6], remap)) if e[0] == 4 else ()) for e in ry.log]
+                    ly = [(e[0], e[1]) + ((remap_tok(e[1], remap), remap_tok(e[2], remap), remap_tok(e[5], remap), remap_tok(e[6], remap)) if e[0] in (4, 5) else ()) for e in ry.log]
                     work = [[]]
                     xv = [tvars[i] for i in core]
                     while work:
@@ -478,7 +478,7 @@ def c16_job(args):
                             xmap = {i: k for k, i in enumerate(core)}
                             tx = plain_tree(rx.walk)
                             dx = [(d[2], d[4]) for d in rx.diags]
-                            lx = [(e[0], e[1]) + ((remap_tok(e[1], xmap), remap_tok(e[2], xmap), remap_tok(e[5], xmap), remap_tok(e[6], xmap)) if e[0] == 4 else ()) for e in rx.log]
+                            lx = [(e[0], e[1]) + ((remap_tok(e[1], xmap), remap_tok(e[2], xmap), remap_tok(e[5], xmap), remap_tok(e[6], xmap)) if e[0] in (4, 5) else ()) for e in rx.log]
                             if tx != ty: diff = f'trees differ once skipped tokens are ignored: with trivia {ty} without {tx}'
                             elif dx != dy: diff = f'diagnostics differ: with trivia at {dy}, without at {dx}'
                             elif lx != ly: diff = f'callback sequence differs: with trivia {ly} without {lx}'
@@ -518,7 +518,7 @@ def confirm_c16(h, g, v):
     oy, ox = harness.run_native(h, [(v.entry, [h.tokens[k] for k in y], v.script), (v.entry, [h.tokens[k] for k in x], v.script)], timeout=30)
     v.native = {'with_trivia': oy if len(json.dumps(oy)) < 1500 else '...', 'without': ox if len(json.dumps(ox)) < 1500 else '...'}
     if v.kind == 'lookahead-sees-trivia':
-        return any(e[0] == 4 and any(t in skipset for t in (e[1], e[2], e[5], e[6]) if t >= h.first_tok) for e in oy.get('log', []))
+        return any(e[0] in (4, 5) and any(t in skipset for t in (e[1], e[2], e[5], e[6]) if t >= h.first_tok) for e in oy.get('log', []))
     if any(o.get('panic') or o.get('timeout') or o.get('crash') for o in (oy, ox)) or oy['walk'] == 'PANIC' or ox['walk'] == 'PANIC':
         return bool(not (oy.get('panic') or oy.get('timeout') or oy.get('crash')) and oy.get('walk') != 'PANIC')
     remap = {i: k for k, i in enumerate(core)}
@@ -534,8 +534,8 @@ def confirm_c16(h, g, v):
     dy = [(remap.get(d[2], len(core) if d[2] >= n else -1), d[4]) for d in oy['diags']]
     dx = [(d[2], d[4]) for d in ox['diags']]
     if dy != dx: return True
-    ly = [(e[0], e[1]) + ((e[1], e[2], e[5], e[6]) if e[0] == 4 else ()) for e in oy['log']]
-    lx = [(e[0], e[1]) + ((e[1], e[2], e[5], e[6]) if e[0] == 4 else ()) for e in ox['log']]
+    ly = [(e[0], e[1]) + ((e[1], e[2], e[5], e[6]) if e[0] in (4, 5) else ()) for e in oy['log']]
+    lx = [(e[0], e[1]) + ((e[1], e[2], e[5], e[6]) if e[0] in (4, 5) else ()) for e in ox['log']]
     return ly != lx
 
 # ---------------------------------------------------------------- C05: derivation tree with node operators (reference interpreter)
@@ -643,7 +643,7 @@ def named_log(h, log):
     for e in log:
         if e[0] in (1, 2): out.append((e[0], h.rule_names[e[1]], e[2], e[3]))
         elif e[0] == 3: out.append((3, h.acts[e[1]], e[3]))
-        elif e[0] == 4: out.append((4, h.preds[e[7]], e[1], e[2], e[5], e[6]))
+        elif e[0] in (4, 5): out.append((e[0], h.preds[e[7]], e[1], e[2], e[5], e[6]))
     return out
 
 def c15_job(args):
